@@ -164,7 +164,7 @@ def role_of(s):
             return "vaInitial"
         if f.endswith("authorship/rebase_authorship.rs"):
             return "rebaseCarry"
-    # /repo b97387e6: lines an agent's checkpoint recorded while a rebase / cherry-pick was stopped, carried over to the
+    # /repo 74442911: lines an agent's checkpoint recorded while a rebase / cherry-pick was stopped, carried over to the
     # continued commit through the entry's snapshot (post-rewrite path; not the commit path of Model/Snapshot.lean)
     if f.endswith("authorship/rebase_authorship.rs") and fn == "credit_lines_recorded_while_stopped" and callee == "get_file_version":
         return "rebaseStopped"
